@@ -4,7 +4,8 @@
    Model: Client/Live.v = Client/Model.v extended with the transitions of bad_server_salt,
    new_session_created, key exchange, connection close / reconnect; it describes mtproto.go / network.go
    AFTER the repairs of this work package (retry marker only to the waiter registered under bad_msg_id,
-   whose table entry is removed with it; key-exchange requests are not put into the response table).
+   whose table entry is removed with it; key-exchange requests are not put into the response table; a message
+   that cannot be handled is acknowledged all the same and does not cut off the rest of its container).
 
    [run2 (init2 c) ls = Some s] quantifies over every history: any configuration c (resumed or freshly
    keyed session, any Warnings channel, handler or none), any number of callers, any interleaving of their
